@@ -293,6 +293,19 @@ def check(ctx):
 
     generic_substitution_rule(ctx, "C01.R12")
 
+    # ---------------- R14: object-like classes are visited with their type arguments
+    ctx.rule("C01.R14", "the base dispatcher resolves the annotations of dataclasses, NamedTuples and TypedDicts from the visited type itself (`tp`, a possibly parametrised generic) and hands `tp` to the hook: with the origin class alone the type arguments are lost and a field typed T accepts anything", floor=4)
+    vv14 = model.func("apischema.visitor.Visitor.visit")
+    for c in walk_no_nested(vv14.node):
+        if isinstance(c, ast.Call) and dotted(c.func) == "resolve_type_hints" and c.args:
+            ctx.check(norm(c.args[0]) == "tp", "C01.R14", f"{vv14.qualname}:resolve_type_hints({norm(c.args[0])})", None,
+                      f"`{short(c, 50)}` resolves the hints of the origin class: for `class NT(NamedTuple, Generic[T])`, NT[int] keeps `x: T` unbound - deserialize(NT[int], {{'x': 'a'}}) is accepted and the schema says `x: {{}}`",
+                      vv14, c, detail="resolve_type_hints(tp)")
+        if isinstance(c, ast.Call) and norm(c.func) in ("self.named_tuple", "self.typed_dict", "self.dataclass") and c.args:
+            ctx.check(norm(c.args[0]) == "tp", "C01.R14", f"{vv14.qualname}:{norm(c.func)}({norm(c.args[0])})", None, f"`{short(c, 60)}` hands the origin class to the hook instead of the visited type", vv14, c, detail=f"{norm(c.func)}(tp, ...)")
+    dtf14 = model.func("apischema.visitor.dataclass_types_and_fields")
+    ctx.check("resolve_type_hints(tp)" in norm(dtf14.node), "C01.R14", f"{dtf14.qualname}:resolve_type_hints", None, "dataclass fields are no longer resolved from the visited type", dtf14, dtf14.node, detail="resolve_type_hints(tp)")
+
     # ---------------- R13: literal_values is position-preserving
     ctx.rule("C01.R13", "literal_values returns one primitive per argument of the Literal / member of the Enum, in order: its caller zips the result with the arguments to build the value table (deduplicating with Python equality, where False == 0 and 1 == 1.0, shifts the pairs)", floor=2)
     lv = model.func("apischema.utils.literal_values")
@@ -348,6 +361,7 @@ def generic_substitution_rule(ctx, rule):
 
 
 def mutants(mb):
+    mb.add_text("typed-dict-visited-by-origin", "apischema/visitor.py", "            return self.typed_dict(tp, resolve_type_hints(tp), required_keys)\n", "            return self.typed_dict(origin, resolve_type_hints(origin), required_keys)\n", "C01.R14", "typed_dict")
     mb.add_text("literal-values-deduplicated", "apischema/utils.py", "    return primitive_values\n", "    return list(dict.fromkeys(primitive_values))\n", "C01.R13", "one-per-argument")
     mb.add_text("generic-base-top-level-substitution", "apischema/typing.py", "            base_parameters = getattr(base, \"__parameters__\", ())\n            if base_parameters:\n                base = base[tuple(substitution.get(p, p) for p in base_parameters)]\n", "            if getattr(base, \"__parameters__\", ()):\n                base = get_origin(base)[tuple(substitution.get(a, a) for a in get_args(base))]\n", "C01.R12", "base-substitution")
     mb.add_text("mult-of-true-division", "apischema/constraints.py", "    return m1 * m2 // gcd(m1, m2)", "    return m1 * m2 / gcd(m1, m2)", "C01.R11", "lcm")
